@@ -120,6 +120,11 @@ def run_config(ctx, cfg):
             x, y = Leaf(vc.fresh_real("x"), "x"), Leaf(vc.fresh_real("y"), "y")
             n = SBSum(x, y)
             vc.check("Sum(obs,obs).apply == left + right", n.apply(S, X) == x.val + y.val)
+            # names do not identify observables (SigmaZ and SigmaZ(absolute=True) share one): equal names, different values
+            xs, ys = Leaf(vc.fresh_real("x"), "same"), Leaf(vc.fresh_real("y"), "same")
+            vc.check("Sum(obs,obs).apply == left + right for operands that share a name", SBSum(xs, ys).apply(S, X) == xs.val + ys.val)
+            vc.check("x - y for operands that share a name", (xs - ys).apply(S, X) == xs.val - ys.val)
+            vc.check("x + x (the same object twice)", SBSum(xs, xs).apply(S, X) == xs.val + xs.val)
             vc.check("Sum(obs,obs).apply calls each child's apply once", x.calls == 1 and y.calls == 1)
             for tag, c in scalars():
                 x, y = Leaf(vc.fresh_real("x"), "x"), Leaf(vc.fresh_real("y"), "y")
